@@ -164,56 +164,83 @@ Fixpoint em_kind_of (tbl : list (string * em_kind)) (tag : string) : option em_k
   | (t, k) :: tl => if String.eqb t tag then Some k else em_kind_of tl tag
   end.
 
-Lemma em_bridge_tags_overwrite :
-  map (em_kind_of gen_event_mergers) em_bridge_tags = [Some EmOverwrite; Some EmOverwrite; Some EmOverwrite].
-Proof. vm_compute. reflexivity. Qed.
+(* in the generated table every merger of a bridge tag has no middleware *)
+Definition em_bridge_rows_keep : bool :=
+  forallb (fun m => if existsb (String.eqb (fst m)) em_bridge_tags
+                    then match snd m with EmKeep => true | _ => false end else true) gen_event_mergers.
 
-(* ---------- witnesses ---------- *)
+Lemma em_bridge_tags_keep :
+  map (em_kind_of gen_event_mergers) em_bridge_tags = [Some EmKeep; Some EmKeep; Some EmKeep] /\ em_bridge_rows_keep = true.
+Proof. vm_compute. split; reflexivity. Qed.
+
+Lemma em_single_length : forall es, Forall em_single es -> List.length (flat_map ev_data es) = List.length es.
+Proof.
+  induction es as [|e tl IH]; intro F; [reflexivity|]. inversion F as [|x l [i E] Ft]; subst.
+  cbn [flat_map]. rewrite E. cbn. f_equal. apply IH. exact Ft.
+Qed.
+
+Lemma em_merged_in : forall tbl events tag items,
+  In (tag, items) (flat_map (em_merged_of events) tbl) ->
+  exists k, In (tag, k) tbl /\ items = flat_map ev_data (em_apply k (filter (em_taken tag) events)).
+Proof.
+  induction tbl as [|[t k] tl IH]; intros events tag items I; [destruct I|].
+  cbn [flat_map] in I. apply in_app_or in I as [I|I].
+  - unfold em_merged_of in I. cbn [fst snd] in I.
+    destruct (filter (em_taken t) events) as [|e es] eqn:F; [destruct I|].
+    destruct I as [I|[]]. inversion I; subst. exists k. split; [left; reflexivity|]. rewrite F. reflexivity.
+  - destruct (IH _ _ _ I) as [k' [J E]]. exists k'. split; [right; exact J|exact E].
+Qed.
+
+(* no event of a bridge tag is dropped by the merge *)
+Lemma em_no_bridge_event_dropped : forall tag events, In tag em_bridge_tags ->
+  Forall (fun e => ev_type e = EtStats /\ exists i, ev_data e = [i]) events ->
+  forall items, In (tag, items) (fst (em_merge_events gen_event_mergers events)) ->
+  List.length items = List.length (filter (em_taken tag) events).
+Proof.
+  intros tag events B F items I. unfold em_merge_events in I. cbn [fst] in I.
+  destruct (em_merged_in _ _ _ _ I) as [k [J E]].
+  assert (K : k = EmKeep).
+  { destruct em_bridge_tags_keep as [_ R]. unfold em_bridge_rows_keep in R. rewrite forallb_forall in R.
+    specialize (R _ J). cbn [fst snd] in R.
+    assert (X : existsb (String.eqb tag) em_bridge_tags = true).
+    { apply existsb_exists. exists tag. split; [exact B|apply String.eqb_refl]. }
+    rewrite X in R. destruct k; try discriminate. reflexivity. }
+  subst k. rewrite E. cbn [em_apply]. apply em_single_length.
+  apply Forall_forall. intros e Ie. apply filter_In in Ie as [Ie _].
+  rewrite Forall_forall in F. destruct (F e Ie) as [_ S]. exact S.
+Qed.
+
+Lemma em_all_tickets_stored : forall merged, em_burn_tickets_stored merged = merged.
+Proof. reflexivity. Qed.
+
+(* ---------- examples ---------- *)
 
 Definition ew_burn (idx hash amount : Z) : em_event :=
   {| ev_type := EtStats; ev_tag := "TagAddBurnTicket"; ev_index := idx; ev_data := [(hash, amount)] |}.
 Definition ew_aburn (client amount : Z) : em_event :=
   {| ev_type := EtStats; ev_tag := "TagAuthorizerBurn"; ev_index := client; ev_data := [(client, amount)] |}.
 
-(* one block: two burns to Ethereum address 1, one to address 2, both by client 7 and one by client 8 *)
+(* one block: two burns to Ethereum address 1, one to address 2, two by client 7 and one by client 8 *)
 Definition ew_block : list em_event :=
   [ew_burn 1 101 5; ew_aburn 7 5; ew_burn 1 102 7; ew_aburn 7 7; ew_burn 2 103 9; ew_aburn 8 9;
    {| ev_type := EtChain; ev_tag := "TagFinalizeBlock"; ev_index := 0; ev_data := [] |}].
 
 Lemma ew_merge_result :
   fst (em_merge_events gen_event_mergers ew_block) =
-    [("TagAddBurnTicket", [(102, 7); (103, 9)]); ("TagAuthorizerBurn", [(7, 7); (8, 9)])] /\
+    [("TagAddBurnTicket", [(101, 5); (102, 7); (103, 9)]); ("TagAuthorizerBurn", [(7, 5); (7, 7); (8, 9)])] /\
   List.length (snd (em_merge_events gen_event_mergers ew_block)) = 1%nat /\
-  em_burn_tickets_stored [(102, 7); (103, 9)] = [(102, 7)].
+  em_burn_tickets_stored [(101, 5); (102, 7); (103, 9)] = [(101, 5); (102, 7); (103, 9)] /\
+  em_total 7 [(7, 5); (7, 7); (8, 9)] = 12.
 Proof. vm_compute. repeat split. Qed.
-
-(* the full statement fails: events of a bridge tag disappear in the merge *)
-Lemma ew_refute_no_event_dropped :
-  ~ (forall tag events, In tag em_bridge_tags ->
-       Forall (fun e => ev_type e = EtStats /\ exists i, ev_data e = [i]) events ->
-       forall items, In (tag, items) (fst (em_merge_events gen_event_mergers events)) ->
-       List.length items = List.length (filter (em_taken tag) events)).
-Proof.
-  intro F.
-  assert (X : List.length [(102, 7); (103, 9)] = List.length (filter (em_taken "TagAddBurnTicket") ew_block)).
-  { apply (F "TagAddBurnTicket" (firstn 6 ew_block)).
-    - left. reflexivity.
-    - repeat constructor; eexists; reflexivity.
-    - vm_compute. left. reflexivity. }
-  vm_compute in X. discriminate.
-Qed.
-
-(* the handler stores one ticket however many the merged event carries *)
-Lemma ew_refute_all_tickets_stored :
-  ~ (forall merged, List.length (em_burn_tickets_stored merged) = List.length merged).
-Proof. intro F. specialize (F [(102, 7); (103, 9)]). vm_compute in F. discriminate. Qed.
-
-Lemma em_one_ticket_stored : forall merged, (List.length merged <= 1)%nat -> em_burn_tickets_stored merged = merged.
-Proof. intros [|t [|u tl]] H; try reflexivity. cbn in H. lia. Qed.
 
 (* an additive tag on the same block shape: both locks of client 7 count *)
 Definition ew_lock (client amount : Z) : em_event :=
   {| ev_type := EtStats; ev_tag := "TagLockStakePool"; ev_index := client; ev_data := [(client, amount)] |}.
 Lemma ew_additive_example :
   fst (em_merge_events gen_event_mergers [ew_lock 7 5; ew_lock 8 9; ew_lock 7 7]) = [("TagLockStakePool", [(7, 12); (8, 9)])].
+Proof. vm_compute. reflexivity. Qed.
+
+(* the overwrite middleware (still used for idempotent upserts such as TagAddOrOverwriteUser) keeps the last event per index *)
+Lemma ew_overwrite_example :
+  map ev_data (em_overwrite [ew_lock 7 5; ew_lock 8 9; ew_lock 7 7]) = [[(7, 7)]; [(8, 9)]].
 Proof. vm_compute. reflexivity. Qed.
